@@ -1,6 +1,6 @@
 """C10 - a Measurement handle is exactly the database restricted to that measurement (DESIGN 4, C10)."""
 
-from .. import observers, qast, refmodel, world as W
+from .. import ladder, observers, qast, refmodel, world as W
 from .base import E1Check, viol
 from .c01 import std_ops
 from .c03 import update_specs
@@ -75,6 +75,28 @@ class C10(E1Check):
     def bounds(self):
         return {"N": 3, "D": 3} if self.tier == "quick" else {"N": 4, "D": 4, "max_states": 30000}
 
+    def configs(self):
+        lad = ladder.configs(self.ladder_sizes(), storages=("mem", "csv"), autos=(True,), D=2)
+        return super().configs() + lad
+
+    def ladder_op_list(self, cfg):
+        n = cfg["ladder"]
+        base = ladder.ops(self.alpha, cfg) + [("handle", "big")]
+        V = self.ladder_vocab(n)
+        specs = [s for _, s in update_specs(self.alpha)][:6]
+        extra = []
+        for name in ("big", "n", "zz"):
+            via = "h:" + name
+            extra.append(("insert_multiple", tuple("H%d" % i for i in range(150, 300)), None, False, via))   # bulk through the handle
+            extra.append(("insert", "P5", None, False, via))
+            extra += [("remove", q, None, via) for q in V[:10]]
+            extra.append(("h_remove_all", name))
+            extra += [("update", q, sp, None, via) for q in V[:5] for sp in specs[:4]]
+            extra += [("update_all", sp, via) for sp in specs[:4]]
+        have = set(base)
+        self._ladder_probes = {e for e in extra if e not in have}
+        return base + [e for e in extra if e not in have]
+
     def budget(self):
         return 600 if self.tier == "quick" else 1200
 
@@ -87,7 +109,7 @@ class C10(E1Check):
         return base + [p for p in self.probe_list if p in self.probe_set]
 
     def is_probe(self, op):
-        return op in self.probe_set
+        return op in self.probe_set or op in getattr(self, "_ladder_probes", ())
 
     def enabled(self, op, contents, cfg, history):
         n = W.op_inserts(op)
@@ -101,7 +123,10 @@ class C10(E1Check):
     def transition(self, T, counters):
         out = []
         op = T.op
-        if op not in self.probe_list and not (op[0] in ("insert", "h_remove_all") and op in (("insert", "P0", None, False, "h:n"), ("h_remove_all", "m"))):
+        if op not in self.probe_list and op not in getattr(self, "_ladder_probes", ()) and not (
+                op[0] in ("insert", "h_remove_all") and op in (("insert", "P0", None, False, "h:n"), ("h_remove_all", "m"))):
+            return out
+        if op[0] not in ("insert", "insert_multiple", "remove", "h_remove_all", "update", "update_all") or (op[0] != "h_remove_all" and not str(op[-1]).startswith("h:")):
             return out
         counters["handle_probe_transitions"] += 1
         name = op[1] if op[0] == "h_remove_all" else (op[-1][2:])
@@ -154,6 +179,14 @@ class C10(E1Check):
 
     def observe(self, w, stored, history, cfg, counters):
         db = w.db
+        if cfg.get("ladder"):
+            def tgt(m):
+                h = w.handles.get(m)
+                return h if h is not None else db.measurement(m)
+
+            out = observers.read_battery("C10", db, stored, cfg, self.ladder_vocab(cfg["ladder"]), counters, filters=("big", "n", "zz"),
+                                         select_filters=("big",), target=tgt)
+            return out + observers.getter_battery("C10", db, stored, cfg, counters, filters=("big", "n", "zz"), handles=True)
 
         def target(m):
             h = w.handles.get(m)
